@@ -93,11 +93,14 @@ func resolveSchedRoles(p *Prog) (*schedRoles, error) {
 				if callee == nil || !p.IsProduct(callee) || len(sccs(callee.Blocks, blockSet(callee.Blocks))) == 0 {
 					continue
 				}
+				// (the receive may sit in a helper the loop calls: getOneFeedback)
 				consumes := false
-				for _, rs := range p.RecvSites(callee) {
-					role := p.chanRole(rs.Chan)
-					if role == "field:feedback" || role == "field:opts.Feedback" {
-						consumes = true
+				for _, sub := range p.productClosure(callee) {
+					for _, rs := range p.RecvSites(sub) {
+						role := p.chanRole(rs.Chan)
+						if role == "field:feedback" || role == "field:opts.Feedback" {
+							consumes = true
+						}
 					}
 				}
 				if !consumes {
@@ -118,6 +121,21 @@ func resolveSchedRoles(p *Prog) (*schedRoles, error) {
 		return nil, fmt.Errorf("UNRESOLVED-ANCHOR: no deferred wait-for-zero-in-flight function in %s (the wait must be a defer of the scheduling loop function)", p.Name)
 	}
 	return sr, nil
+}
+
+// productClosure: fn and the product functions it calls statically (transitively), fn first.
+func (p *Prog) productClosure(fn *ssa.Function) []*ssa.Function {
+	seen := map[*ssa.Function]bool{fn: true}
+	out := []*ssa.Function{fn}
+	for i := 0; i < len(out); i++ {
+		for _, cal := range calledIn(p, out[i]) {
+			if !seen[cal] && p.IsProduct(cal) {
+				seen[cal] = true
+				out = append(out, cal)
+			}
+		}
+	}
+	return out
 }
 
 func calledIn(p *Prog, fn *ssa.Function) []*ssa.Function {
